@@ -15,14 +15,22 @@ for d in sorted(os.listdir(os.path.join(VERIF, "seeded"))):
     verdict, classes, wall = "not run", "", ""
     if last_quick:
         h = last_quick[-1]
+        # a later run against several checks counts if any of them reports the change
+        for cand in reversed(last_quick):
+            if cand["detected"]:
+                h = cand
+                break
         verdict = "reported" if h["detected"] else "MISSED"
-        r = h["runs"][0]
+        r = next((x for x in h["runs"] if x["exit"] == 1 and x["violation_lines"] > 0), h["runs"][0])
+        other = r["check"].split()[1] if r["check"].split()[1] != m["property"] else None
         fr = r.get("first_replay") or {}
         classes = fr.get("class") or ""
         if fr.get("sub"):
             classes = "%s: %s" % (fr["sub"], classes)
+        if other:
+            classes = "[%s] %s" % (other, classes)
         wall = "%ss" % r.get("wall_s")
-    first_missed = any((not h["detected"]) for h in det["history"]) and verdict == "reported"
+    first_missed = any((not hh["detected"]) for hh in det["history"]) and verdict == "reported"
     rows.append((d, m["property"], files, m["needs_to_manifest"], verdict + (" (after strengthening the check; first run missed it)" if first_missed else ""), classes, wall))
 
 with open(os.path.join(VERIF, "seeded", "INDEX.md"), "w") as f:
